@@ -377,3 +377,9 @@ void vf_harness(void) {
     functions=['String::equalsNocase', 'String::toLowerCase (loop body)', 'String::Enumerator::operator*'],
 )
 UNITS += [nocase_whole]
+
+# replay: where the trace recipe of a unit does not reproduce (or there is none) the driver's battery runs on the real library: all 1,112,064 scalar values through the
+# converters, truncated / malformed tails after 0..40 bytes in exact-size heap copies (ASan), case mapping and equalsNocase against the lower-cased forms
+_bat = replay.battery('C08/driver.cpp', ['battery'])
+for _u in UNITS:
+    _u.replay = replay.first_of(_u.replay, _bat) if _u.replay else _bat
